@@ -253,6 +253,39 @@ def stackStep (st : Unit) (tok : List String) (impl : String) : Unit × Verdict 
         let prop := stkRes impl "miss" == some "0" && (stkRes impl "got" == some "all" || stkRes impl "got" == some "rest")
         (st, verdictOf m impl (some prop))
     | _, _, _ => (st, .bad "sniff")
+  | "dl" :: rest =>
+    match stkKV rest "route" with
+    | some route =>
+      -- (*Muxer).handle: Deadline.handleCalls / handleCloses; C01.handle_clears_deadlines, handle_closes_or_clears
+      let o : Deadline.Outcome :=
+        if route = "none" then .noRoute else if route = "authbad" then .authFail else .handedOn
+      let callsStr := ",".intercalate ((Deadline.handleCalls o).map Deadline.Call.tok)
+      let implCalls : Option (List Deadline.Call) := match stkRes impl "calls" with
+        | some "" => some []
+        | some cs => (cs.splitOn ",").mapM Deadline.Call.ofTok
+        | none => none
+      if Deadline.handleCloses o then
+        (st, verdictOf s!"calls={callsStr};closed=1" impl (some (stkRes impl "closed" == some "1")))
+      else
+        let prop := (match implCalls with | some cs => C01.dlHoldsOn cs | none => false) &&
+          stkRes impl "rd" == some "0" && stkRes impl "wd" == some "0" &&
+          stkRes impl "b2u" == some "1" && stkRes impl "u2b" == some "1"
+        (st, verdictOf s!"calls={callsStr};rd=0;wd=0;b2u=1;u2b=1" impl (some prop))
+    | none => (st, .bad "dl")
+  | "qclose" :: rest =>
+    match stkNat rest "n" with
+    | some n =>
+      -- (*wrapQuicStream).Close: QuicStream.wrapperClose; C01.quic_close_delivers
+      let m := s!"calls={",".intercalate (QuicStream.wrapperClose.map QuicStream.Call.name)};got={n};eof=1;eq=1"
+      let implCalls : Option (List QuicStream.Call) := match stkRes impl "calls" with
+        | some "" => some []
+        | some cs => (cs.splitOn ",").mapM fun c => QuicStream.Call.ofSrc ("Stream." ++ c)
+        | none => none
+      let prop := match implCalls, stkResNat impl "got" with
+        | some cs, some got => C01.quicHoldsOn cs n got (stkRes impl "eof" == some "1") (stkRes impl "eq" == some "1")
+        | _, _ => false
+      (st, verdictOf m impl (some prop))
+    | none => (st, .bad "qclose")
   | _ => (st, .bad "unknown op")
 
 def stack : Engine := { State := Unit, init := (), step := stackStep }
